@@ -151,6 +151,53 @@ fn interpret(kind: Kind, ops: &[Op], bufs: &[&[u8]], probe: Op, pbuf: &[u8], cap
     (o1, o2, len_before, sts)
 }
 
+/// State of a value after one call of a sequence, as raw (pointer, length) pairs: sequences
+/// run through different entry points over the *same* buffers are directly comparable.
+#[derive(Clone, Debug, PartialEq)]
+pub struct StepObs {
+    pub st: St,
+    pub method: Option<Sl>,
+    pub path: Option<Sl>,
+    pub version: Option<u8>,
+    pub code: Option<u16>,
+    pub reason: Option<(usize, Vec<u8>)>,
+    /// only read when the call completed
+    pub headers: Vec<(Sl, Sl)>,
+}
+
+/// One value, one entry point, a sequence of buffers: the observable state after every call.
+pub fn run_sequence(kind: Kind, entry: Entry, cfg: u8, bufs: &[&[u8]], cap: usize) -> Vec<StepObs> {
+    let op = Op { entry, cfg, ucap: cap };
+    let mut arr: Vec<Header<'_>> = vec![EMPTY_HEADER; cap];
+    let mut uarrs: Vec<Vec<MaybeUninit<Header<'_>>>> = bufs.iter().map(|_| vec![MaybeUninit::uninit(); cap]).collect();
+    let mut out = vec![];
+    let hs = |h: &[Header<'_>]| h.iter().map(|h| (sl(h.name.as_bytes()), sl(h.value))).collect::<Vec<_>>();
+    // the empty reason may be a static string whose address differs between code paths:
+    // compare non-empty reasons by address, empty ones by emptiness
+    let rs = |r: Option<&str>| r.map(|s| (if s.is_empty() { 0 } else { s.as_ptr() as usize }, s.as_bytes().to_vec()));
+    if kind == Kind::Request {
+        let mut req = Request::new(&mut arr[..]);
+        for (b, u) in bufs.iter().zip(uarrs.iter_mut()) {
+            // an uninit call gets as many slots as the value currently lends through
+            // `headers` (after a Complete that is the number of headers it found), so that
+            // the capacity seen by every entry point is the same at every step
+            let n = req.headers.len().min(u.len());
+            let st = req_call(&mut req, op, b, &mut u[..n]);
+            let headers = if matches!(st, St::Complete(_)) { hs(&*req.headers) } else { vec![] };
+            out.push(StepObs { st, method: req.method.map(|s| sl(s.as_bytes())), path: req.path.map(|s| sl(s.as_bytes())), version: req.version, code: None, reason: None, headers });
+        }
+    } else {
+        let mut resp = Response::new(&mut arr[..]);
+        for (b, u) in bufs.iter().zip(uarrs.iter_mut()) {
+            let n = resp.headers.len().min(u.len());
+            let st = resp_call(&mut resp, op, b, &mut u[..n]);
+            let headers = if matches!(st, St::Complete(_)) { hs(&*resp.headers) } else { vec![] };
+            out.push(StepObs { st, method: None, path: None, version: resp.version, code: resp.code, reason: rs(resp.reason), headers });
+        }
+    }
+    out
+}
+
 /// aux = [entry, cfg, ucap, kind, a, b] per history op, then the probe's ucap.
 /// kind 0: the op parses its own buffer rec.bufs[i]; kind 1: it parses arena[a..b], a slice
 /// of the *same allocation* as the probe (arena = bufs[n] ++ probe ++ bufs[n+1]).
@@ -212,6 +259,17 @@ pub fn check(r: &Runner, _ctx: &mut Ctx, l: &mut Local, rec: &CaseRec) -> Result
         Ok(x) => x,
         Err(_) => return Err(Violation::new("C18/panic", "a call in the history or the probe panicked", rec)),
     };
+    // the documented loop (parse, read more, parse again on the same value) must behave like a
+    // fresh value each time: as long as no call has completed, the value still lends the
+    // caller's whole array (C17's restore clause, seen here over histories)
+    if sts.iter().all(|s| !matches!(s, St::Complete(_))) && len_before != rec.cap {
+        let hist: Vec<String> = sts.iter().zip(ops.iter()).map(|(s, o)| format!("{}[cfg {:#04x}] -> {}", o.entry.name(), o.cfg, s.show())).collect();
+        return Err(Violation::new(
+            format!("C18/loop-differs-from-fresh-value/{}", kind.name()),
+            format!("after the history [{}] (no call completed) the value's headers slice has length {} instead of the caller's {}: the next parse of the documented loop no longer behaves like a parse on a fresh value", hist.join("; "), len_before, rec.cap),
+            rec,
+        ));
+    }
     let (n1, n2): (Norm, Norm) = (norm(&o1), norm(&o2));
     let same = n1.st == n2.st
         && (!matches!(n1.st, St::Complete(_))
@@ -336,6 +394,15 @@ fn gen_history(u: &mut Choice, profile: &Profile) -> CaseRec {
     rec
 }
 
+pub const REQS: [&[u8]; 8] = [
+    b"GET /a HTTP/1.1\r\nA: b\r\nC: d\r\n\r\n", b"POST /bb HTTP/1.0\n\n", b"GET /a HTTP/1.1\r\nA: b", b"GET /a HT", b"GET",
+    b"GET /\xff HTTP/1.1\r\n\r\n", b"PUT /c HTTP/1.1\r\nA: b\r\nbad\r\n\r\n", b"\r\nGET /d HTTP/1.1\r\nE: f\r\n\r\n",
+];
+pub const RESPS: [&[u8]; 8] = [
+    b"HTTP/1.1 200 OK\r\nA: b\r\nC: d\r\n\r\n", b"HTTP/1.0 404\n\n", b"HTTP/1.1 200 OK\r\nA: b", b"HTTP/1.1 2", b"HTTP/1.1 200 Reason",
+    b"HTTP/1.1 500 X\xffY\r\n\r\n", b"HTTP/1.1 301 Moved\r\nA: b\r\nbad\r\n\r\n", b"HTTP/1.1 204 \r\nE: f\r\n\r\n",
+];
+
 pub fn run(r: &Runner) {
     let p1 = Profile { truncate: 30, mutate: 48, ..Profile::DEFAULT };
     r.par_random(
@@ -354,14 +421,6 @@ pub fn run(r: &Runner) {
         &|ctx, l, rec| check(r, ctx, l, rec),
     );
     // structured: every ordered pair (history message, probe message) from a fixed list × entry points
-    const REQS: [&[u8]; 8] = [
-        b"GET /a HTTP/1.1\r\nA: b\r\nC: d\r\n\r\n", b"POST /bb HTTP/1.0\n\n", b"GET /a HTTP/1.1\r\nA: b", b"GET /a HT", b"GET",
-        b"GET /\xff HTTP/1.1\r\n\r\n", b"PUT /c HTTP/1.1\r\nA: b\r\nbad\r\n\r\n", b"\r\nGET /d HTTP/1.1\r\nE: f\r\n\r\n",
-    ];
-    const RESPS: [&[u8]; 8] = [
-        b"HTTP/1.1 200 OK\r\nA: b\r\nC: d\r\n\r\n", b"HTTP/1.0 404\n\n", b"HTTP/1.1 200 OK\r\nA: b", b"HTTP/1.1 2", b"HTTP/1.1 200 Reason",
-        b"HTTP/1.1 500 X\xffY\r\n\r\n", b"HTTP/1.1 301 Moved\r\nA: b\r\nbad\r\n\r\n", b"HTTP/1.1 204 \r\nE: f\r\n\r\n",
-    ];
     let total = 2 * 8 * 8 * 4 * 4 * 3;
     r.par_enum("every ordered pair (history message, probe message) of 8 requests / 8 responses × 4×4 entry points × capacities {0,2,8}", total, |ctx, l, idx| {
         let mut x = idx;
